@@ -68,6 +68,17 @@ def s_vlog_str(ex, st, fr, text, args):
     return UNIT
 
 
+def str_lit(text):
+    """value of a string constant as printed in MIR (`"..."` with Rust escapes)"""
+    if len(text) >= 2 and text[0] == '"' and text[-1] == '"':
+        body = text[1:-1]
+        body = re.sub(r'\\u\{([0-9a-fA-F]+)\}', lambda m: chr(int(m.group(1), 16)), body)
+        for a_, b_ in (('\\n', '\n'), ('\\t', '\t'), ('\\r', '\r'), ('\\0', '\0'), ('\\"', '"'), ("\\'", "'"), ('\\\\', '\\')):
+            body = body.replace(a_, b_)
+        return body
+    return text
+
+
 def s_chars(ex, st, fr, text, args):
     """str::chars of the harness's symbolic string: the same character sequence as the iterator input"""
     v = args[0]
@@ -75,6 +86,8 @@ def s_chars(ex, st, fr, text, args):
         v = ex.deref(st, v)
     if isinstance(v, Native) and v.tag == 'symstr':
         return Native('input', (v.p[0] if v.p else 0,))
+    if isinstance(v, Native) and v.tag == 'str':
+        return Native('vecit', (tuple(S(32, ord(c_)) for c_ in str_lit(v.p[0])), 0))
     raise Inconclusive('chars() of %r' % (v,))
 
 
@@ -121,6 +134,55 @@ def s_str_index_from(ex, st, fr, text, args):
         branches.append((cj, (lambda jj: (lambda s2: Native('symstr', (jj,))))(j)))
     branches.append((z3.Not(z3.Or(*conds)), lambda s2: PanicResult('byte index is not a char boundary in str slicing')))
     return Fork(branches)
+
+
+def s_str_get_from(ex, st, fr, text, args):
+    """str::get(a..): Some(suffix) if a is a char boundary of the string (or its length), else None"""
+    v = args[0]
+    if isinstance(v, Ref):
+        v = ex.deref(st, v)
+    a = zi(args[1].f[0])
+    if isinstance(v, Native) and v.tag == 'str':
+        text_ = str_lit(v.p[0])
+        offs = [0]
+        for c_ in text_:
+            offs.append(offs[-1] + len(c_.encode('utf-8')))
+        branches = [((a == o), (lambda jj: (lambda s2: E('Some', (Native('str', (text_[jj:],)),))))(j)) for j, o in enumerate(offs)]
+        branches.append((z3.And(*[a != o for o in offs]), lambda s2: E('None')))
+        return Fork(branches)
+    if not (isinstance(v, Native) and v.tag == 'symstr'):
+        raise Inconclusive('str::get on %r' % (v,))
+    base = v.p[0] if v.p else 0
+    chars, ln = st.aux['input']
+    offs = [z3.IntVal(0)]
+    for c in chars:
+        offs.append(offs[-1] + SM.len_utf8_term(c).v)
+    branches = []
+    conds = []
+    for j in range(base, len(chars) + 1):
+        cj = z3.And(a == offs[j] - offs[base], zi(ln) >= j)
+        conds.append(cj)
+        branches.append((cj, (lambda jj: (lambda s2: E('Some', (Native('symstr', (jj,)),))))(j)))
+    branches.append((z3.Not(z3.Or(*conds)), lambda s2: E('None')))
+    return Fork(branches)
+
+
+def s_str_len(ex, st, fr, text, args):
+    """str::len: byte length of a string constant, or of the symbolic input string (sum of the UTF-8 lengths of the
+    characters below the symbolic length)"""
+    v = args[0]
+    if isinstance(v, Ref):
+        v = ex.deref(st, v)
+    if isinstance(v, Native) and v.tag == 'str':
+        return S(64, len(str_lit(v.p[0]).encode('utf-8')))
+    if not (isinstance(v, Native) and v.tag == 'symstr'):
+        raise Inconclusive('str::len on %r' % (v,))
+    base = v.p[0] if v.p else 0
+    chars, ln = st.aux['input']
+    total = z3.IntVal(0)
+    for j in range(base, len(chars)):
+        total = total + z3.If(zi(ln) > j, SM.len_utf8_term(chars[j]).v, 0)
+    return S(64, z3.simplify(total))
 
 
 def s_str_index(ex, st, fr, text, args):
@@ -182,6 +244,8 @@ HARNESS_SUMMARIES = [
     (re.compile(r'core::str::<impl str>::is_ascii$'), s_is_ascii),
     (re.compile(r'^<str as (std::ops::)?Index<(std::ops::)?Range<usize>>>::index$'), s_str_index),
     (re.compile(r'^<str as (std::ops::)?Index<(std::ops::)?RangeFrom<usize>>>::index$'), s_str_index_from),
+    (re.compile(r'^core::str::<impl str>::get::<(std::ops::)?RangeFrom<usize>>$'), s_str_get_from),
+    (re.compile(r'^core::str::<impl str>::len$'), s_str_len),
     (re.compile(r'(^|::)St::decide$|^rt::<impl at [^>]*>::decide$|St>::decide$'), s_decide),
 ]
 
@@ -438,7 +502,7 @@ class StepHarness:
             self.stats['paths'] += 1
             if len(out) >= self.max_mismatches:
                 return          # enough counterexamples for this definition; the rest is not explored
-            if ex.deadline is not None and time.time() > ex.deadline:
+            if ex.deadline is not None and time.process_time() > ex.deadline:
                 from mirse.exec import OverBudget
                 raise OverBudget('time budget for this definition exhausted')
             if kind == 'panic':
@@ -532,6 +596,22 @@ class StepHarness:
         (and, by the caller, not what it produces from the active one)"""
         if rs_before is None or len(self.names) < 2:
             return False
+        # isolation along the implementation's own action log: every action that ran must belong to the rule set that
+        # was active when it ran (start rule set, changed only by the switches of the actions that ran before it)
+        owner_of = {r.gid: ri for ri, (_, rules) in enumerate(self.d.rulesets) for r in rules}
+        rule_of = {r.gid: r for _, rules in self.d.rulesets for r in rules}
+        cur = rs_before.rho
+        for ev_ in st.events:
+            g = ev_[0]
+            if not g.conc() or g.v not in rule_of:
+                break
+            r = rule_of[g.v]
+            if owner_of[g.v] != cur:
+                return True
+            if r.kind in ('sw', 'swret'):
+                cur = self.names.index(r.target)
+            elif r.kind in ('dyn', 'fdyn'):
+                break               # the decision decides; not tracked here
         if got[0] == 'tok' and got[1].conc():
             owner = None
             for ri, (_, rules) in enumerate(self.d.rulesets):
@@ -548,6 +628,20 @@ class StepHarness:
             it2, ev2, inf2 = ref_next(self.d, o, rs2)
             if got[0] == 'tok' and it2[0] == 'tok' and got[1].conc() and got[1].v == it2[1]:
                 return True
+            if got[0] == 'invalid' and it2[0] == 'invalid' and not st.events and not ev2:
+                # the failure of another rule set: same failure, after examining exactly the characters that rule set
+                # examines (e.g. the entry state of an empty rule set reads one character) - the active rule set's
+                # reference does something else (caller)
+                try:
+                    inner = st.root()['lx'].f[0]
+                    it = inner.f[self.F['__iter']]
+                    pos = it.f[0].p[0]
+                    peeked = it.f[1]
+                    eff = pos - (1 if (peeked.v == 'Some' and peeked.f[0].v == 'Some') else 0)
+                except Exception:
+                    continue
+                if eff == rs2.p:        # ref_next has advanced rs2 to the reference's position after the failure
+                    return True
         return False
 
     def compare(self, st, val, cond, rs, item, events, info, ust_before, ndec_before, syms, ms_before=0, rs_before=None):
